@@ -59,6 +59,7 @@ def run(ctx):
     rule_deleg(ctx, F)
     rule_use(ctx, F)
     rule_port(ctx, F)
+    rule_inc(ctx, F)
 
 
 # ---------------------------------------------------------------------------
@@ -602,6 +603,21 @@ def _raw_serial(t):
         if s[0] == "call" and s[1] and RAW_SOURCES.match(s[1]):
             return True
     return False
+
+
+def rule_inc(ctx, F):
+    """(C17.add) The new codec's Serial::inc adds modulo 2^32: its result comes out of a wrapping addition, and no
+    checked / saturating operation (whose "overflow" case would then be mapped to some fixed value) is involved."""
+    R = "C17.add"
+    b = F.one_body(r"^new::base::serial::Serial::inc$")
+    if not ctx.anchor(R, "new::base::serial::Serial::inc", b):
+        return
+    names = [re.sub(r"<[^<>]*>", "", t["fn"] or "").split("::")[-1] for _, t in b.calls()]
+    wraps = [n for n in names if n in ("wrapping_add_signed", "wrapping_add", "wrapping_sub", "wrapping_sub_unsigned")]
+    others = [n for n in names if re.match(r"^(checked_|saturating_|overflowing_|unwrap_or|unwrap_or_default|unwrap_or_else|strict_)", n)]
+    ctx.ob(R, b, "new Serial::inc adds modulo 2^32", bool(wraps) and not others,
+           "the new codec's Serial::inc computes its result with %s instead of a wrapping addition: increments that cross 2^32 "
+           "collapse to one value, so `a < b` no longer implies `a.inc(n) < b.inc(n)`" % (sorted(set(others)) or "no wrapping operation"), b.where())
 
 
 PORTED = [
